@@ -758,6 +758,12 @@ func (c *FnCtx) assumeWF(st *State, v *Term, typ types.Type) {
 		if v.op == "mkSl" {
 			return
 		}
+		if c.inQuant > 0 && c.e.LeanQuant {
+			// inside a quantifier body the invariants of a loaded slice header would become conjuncts
+			// of the body (they cannot be asserted outside the binder); they are true of every Go value,
+			// nothing is lost by not restating them, and the body stays a plain (nested) quantifier
+			return
+		}
 		seq := c.elemSeqSort(typ)
 		ref, off, ln, cp := f.SlRef(v), f.SlOff(v), f.SlLen(v), f.SlCap(v)
 		reg := c.regionOf(st, seq, ref)
